@@ -3,7 +3,6 @@ package harness
 import (
 	"fmt"
 	"math"
-	"os"
 	"time"
 
 	"bbsim/simrt"
@@ -40,14 +39,12 @@ import (
 //	C08.oob-no-panic / C08.oob-broke-caster   out-of-range delta did not panic / left the caster unusable
 //	C08.misuse-no-panic   unbalanced negative Add / overflowing Add at a quiet moment did not panic
 //	C08.misuse-not-sticky a later call after state-corrupting misuse did not panic
-//	C08.misuse-healed  (only with BBSIM_C08_LITERAL=1, see c08Misuse) literal reading of "every later call panics"
+//	C08.misuse-healed  (harness C08/misuse-literal) literal reading of "every later call panics"
 func init() {
 	Register(Harness{Prop: "C08", Name: "C08/core", Run: c08Core, Weight: 4})
 	Register(Harness{Prop: "C08", Name: "C08/buffered", Run: c08Buffered, Weight: 1})
 	Register(Harness{Prop: "C08", Name: "C08/misuse", Run: func() { c08Misuse(false) }, Weight: 2})
-	if os.Getenv("BBSIM_C08_LITERAL") != "" {
-		Register(Harness{Prop: "C08", Name: "C08/misuse-literal", Run: func() { c08Misuse(true) }, Weight: 2})
-	}
+	Register(Harness{Prop: "C08", Name: "C08/misuse-literal", Run: func() { c08Misuse(true) }, Weight: 2})
 }
 
 const (
@@ -604,13 +601,11 @@ func expectPanic(f func()) (panicked bool) {
 // Variant 2 (unbalanced negative Add): at a quiet moment with c ∈ {0,1,2} units registered and no Send
 // in flight, Add(-(c+k)). Variant 3 (overflow): count brought to exactly MaxInt32 by a legal Add, then
 // Add(+k). The offending call must panic. It corrupts the packed state, so later ordinary calls
-// (Send, Add(0), Add(±1)) must panic as well. One restriction, which is a deviation of the library
-// from the literal statement "every later call panics too" and is reported as a finding rather than
-// checked here: ChanCaster has no 'broken' latch; a later call in the direction opposite to the
-// misuse panics itself but may move the packed state back into the valid range, after which calls
-// succeed again. So this harness asserts panics up to and including the first call in the opposite
-// direction and stops there. With literal=true (harness C08/misuse-literal, registered only when
-// BBSIM_C08_LITERAL is set) the calls after it are asserted too (check C08.misuse-healed).
+// (Send, Add(0), Add(±1)) must panic as well. History: the library used to have no 'broken' latch; a
+// later call in the direction opposite to the misuse panicked itself but moved the packed state back
+// into the valid range, after which calls succeeded again (finding D4, fixed in /repo). The plain
+// harness asserts panics up to and including the first call in the opposite direction; with
+// literal=true (harness C08/misuse-literal) every later call is asserted (check C08.misuse-healed).
 func c08Misuse(literal bool) {
 	cc := bigbuff.NewChanCaster(make(chan int))
 	variant := simrt.Draw(4)
